@@ -3,16 +3,23 @@
 (* committed critical sections over shared variables, as a SEARCH (DESIGN 4.6).   *)
 (*                                                                                *)
 (* hist.ndjson holds recorded cases. A case is a header line                      *)
-(*    {"e":"case", "n":N, "init":[v1..vC], "bank":0|1, "sum":S, ...}              *)
+(*    {"e":"case", "n":N, "init":[v1..vC], "bank":0|1, "sum":S,                   *)
+(*     "deadw":[{"c":cell,"v":value}..], ...}                                     *)
+(*        deadw: what was written by sections that ended in a fatal error (the     *)
+(*        body returned a failed assertion / resource failure, MPCalContext.Run    *)
+(*        returned it and the archetype was gone): such a section never committed, *)
+(*        it is NOT an item of the case (cases whose written values are unique)    *)
 (* followed by N lines, one per observed item, by increasing end stamp t:         *)
 (*    {"e":"txn", "a":sharer, "s":start, "t":end, "ops":[{"k":"r"|"w","c":cell,"v":value}..]}  *)
 (*        a COMMITTED critical section of a sharer (a > 0) or an out-of-band       *)
 (*        GetState() observation between sections (a = 0, reads only); s is taken  *)
 (*        from one atomic counter before the section's first access, t after its   *)
 (*        commit completed;                                                       *)
-(*    {"e":"solo", "a":sharer, "s":.., "t":.., "outs":[..], "ops":[]}              *)
+(*    {"e":"solo", "a":sharer, "s":.., "t":.., "outs":[..], "dh":0|1, "ops":[]}    *)
 (*        the outcomes of up to K consecutive attempts of a probe section made     *)
-(*        while every other sharer was between sections.                          *)
+(*        while every other sharer was between sections (or dead). dh = 1: the     *)
+(*        probe touched only variables last obtained by a sharer that then died    *)
+(*        inside its section, without Commit and without Abort.                    *)
 (* Nothing about locks appears here: the spec speaks of values read and written.  *)
 (*                                                                                *)
 (* (the items of a case are listed by increasing end stamp t; invariant Sorted checks it)      *)
@@ -71,9 +78,24 @@ Sorted == (base # 0 /\ done = {}) => \A i \in 1..(N - 1) : Item(i).t < Item(i + 
 (* ---- progress counted in events, not in time: a probe section attempted while  *)
 (* every other sharer is between sections (so nobody can hold a lock legitimately) *)
 (* must not be refused access on every one of its K attempts.                      *)
+(* Not demanded for the variables a dead sharer took with it (dh = 1): C07 lets a section   *)
+(* that cannot obtain access abort without effect; there the item only documents that the   *)
+(* attempt RETURNED. If such a probe does get through, its reads are an ordinary "txn" item  *)
+(* and must be explained by committed sections alone.                                        *)
 SoloProgress ==
   (base # 0 /\ done = {}) =>
-     \A i \in 1..N : Item(i).e = "solo" => \E j \in 1..Len(Item(i).outs) : Item(i).outs[j] # "timeout"
+     \A i \in 1..N : (Item(i).e = "solo" /\ Item(i).dh = 0) =>
+                         \E j \in 1..Len(Item(i).outs) : Item(i).outs[j] # "timeout"
+
+(* ---- no dirty read: a section that ended in a fatal error never committed; nothing it   *)
+(* wrote may be read by a committed section of a surviving sharer or shown by GetState().  *)
+(* (Implied by the search -- such a read cannot be linearized --, stated on its own so     *)
+(* that the verdict names the cause.)                                                      *)
+DeadW == {<<Trace[base].deadw[j].c, Trace[base].deadw[j].v>> : j \in 1..Len(Trace[base].deadw)}
+NoDirtyRead ==
+  (base # 0 /\ done = {}) =>
+     \A i \in 1..N : \A j \in 1..Len(Item(i).ops) :
+        Item(i).ops[j].k = "r" => <<Item(i).ops[j].c, Item(i).ops[j].v>> \notin DeadW
 
 (* ---- invariant over several shared variables: in a bank case every writer moves *)
 (* an amount between two cells, so every section that read all cells saw the sum.  *)
